@@ -69,7 +69,8 @@ package p2pke
 //@   ensures s.hsIndex >= 4 ==> ret == nil
 //@
 //@ func (*Session).Send
-//@   noframe
+//@   assumeframe
+//@   modifies all(s), all(out)
 //@   requires inv(s)
 //@   ensures inv(s)
 //@   ensures s.hsIndex == old(s.hsIndex) && s.isInit == old(s.isInit)
@@ -83,7 +84,8 @@ package p2pke
 //@     assert len(arg1) == len(old(out)) + 4
 //@
 //@ func (*Session).Deliver
-//@   noframe
+//@   assumeframe
+//@   modifies all(s), all(out)
 //@   requires inv(s)
 //@   ghostvar decrypted = false
 //@   ensures inv(s)
